@@ -7,7 +7,7 @@ from mc.core import Acc
 
 ID = "C15"
 RULE = ("E-INPUT: every ordered pair of distinct domain instants from a set of datetimes spanning 1900..2200 (epoch neighbours, "
-        "leap day, year ends, ms-resolution instants: 40 instants, thorough 408; + a seeded instant), plus domains of 1 ms .. 61 s at every instant, x 3 ranges (scale built domain-then-range, range-then-domain, by re-domaining a live scale, or around a caller-owned inner LinearScale that is re-ranged after first use, in rotation; every other query instant is an instance of a datetime subclass) x query instants "
+        "leap day, year ends, ms-resolution instants: 40 instants, thorough 408; + a seeded instant), plus domains of 1 ms .. 61 s at every instant, x 3 ranges (scale built domain-then-range, range-then-domain, by re-domaining a live scale, around a caller-owned inner LinearScale that is re-ranged after first use, or from caller-owned lists that the caller edits afterwards, before a later re-domain, in rotation; every other query instant is an instance of a datetime subclass) x query instants "
         "(end points, 5 interior fractions, 4 exterior points) through the real TimeScale. Oracle: exact affine map on naive "
         "epoch milliseconds (rationals); invert within 1 ms inside the domain; agreement with LinearScale on the oracle's "
         "milliseconds. Non-trivial: query strictly inside or outside the domain.")
@@ -34,7 +34,7 @@ def bounds(tier, seed):
             "queries_per_domain": 2 + len(FRACS) + len(EXT)}
 
 
-ORDERS = ("domain-range", "range-domain", "redomain", "inner-linear")
+ORDERS = ("domain-range", "range-domain", "redomain", "inner-linear", "caller-lists")
 
 
 class Stamp(datetime):
@@ -47,6 +47,14 @@ def make_scale(t0, t1, rng, order):
         return TimeScale().domain([t0, t1]).range(list(rng))
     if order == "range-domain":
         return TimeScale().range(list(rng)).domain([t0, t1])
+    if order == "caller-lists":
+        # the caller goes on using the lists it handed to the setters (a narrow and a wide axis built from one list)
+        r, d = list(rng), [t0 + (t1 - t0) / 3, t1]
+        s = TimeScale().range(r).domain(d)
+        r.reverse()
+        r.append(0)
+        d[:] = [t1, t0, t0]
+        return s.domain([t0, t1]).clamp(False)
     if order == "inner-linear":
         # the documented constructor argument: the caller owns the inner linear scale and re-ranges it later
         from labella.scale import LinearScale
@@ -143,7 +151,7 @@ def run_shard(shard):
             if t1 < t0:
                 acc.counters["reversed_domains"] += 1
             for ri, rng in enumerate(RANGES):
-                order = ORDERS[(k + ri) % 4]
+                order = ORDERS[(k + ri) % len(ORDERS)]
                 bad = judge(t0, t1, rng, acc, order)
                 if bad:
                     acc.violation({"t0": t0, "t1": t1, "range": rng, "order": order}, bad[0], bad[1], order=(k,))
@@ -156,7 +164,7 @@ def run_shard(shard):
                 acc.states += 1
                 acc.counters["short_domains"] += 1
                 for ri, rng in enumerate(RANGES):
-                    order = ORDERS[(bi + ri) % 4]
+                    order = ORDERS[(bi + ri) % len(ORDERS)]
                     bad = judge(a, b, rng, acc, order)
                     if bad:
                         acc.violation({"t0": a, "t1": b, "range": rng, "order": order}, bad[0], bad[1], order=(10 ** 6 + ms, bi))
